@@ -243,7 +243,7 @@ def pool():
         ('\\textbf{%s}' % a, {}, 'string'),
         ('$\\left(%s\\right)$' % a, {}, 'delete'),
         ('\\begin{foobar}$\\end{foobar}', {'skip_envs': ('foobar',)}, 'rename'),
-        ('\\begin{foobar}%s\\end{foobar}' % a, {}, 'append'),
+        ('\\begin{foobar}\\%s{%s}\\end{foobar}' % (x, a), {}, 'append'),
         ('\\begin{verbatim}{\\end{verbatim}', {}, 'rename'),
         ('\\newcommand{\\%s}{\\begin{%s}}' % (x, e), {}, 'args.reverse'),
         ('%%c\n%s' % a, {}, 'insert'),
